@@ -148,6 +148,29 @@ func (w *world) Run(t *rt.Tape, trace bool) *core.Result {
 		knobs = fmt.Sprintf("lowWaterMark=%d words, batch sizes %d then %d triples", low, first, next)
 	}
 
+	// One case in six: before the circuit of the case the parties are given a circuit with an OR gate
+	// (not compiled for the GMW target): every party's Run must refuse it; what follows on the same
+	// network objects is judged as usual.
+	var badCirc *circuit.Circuit
+	var badIn []*big.Int
+	if t.Choose(rt.SGen, 6) == 0 {
+		bc := gen.Circuit(t, gen.CircuitOpts{Parties: n, GMW: true, MaxIn: 12, MaxGates: 60})
+		flipped := false
+		for i := range bc.Gates {
+			if bc.Gates[i].Op == circuit.AND || bc.Gates[i].Op == circuit.XOR {
+				if t.Choose(rt.SGen, 3) == 0 || i == len(bc.Gates)-1 {
+					bc.Gates[i].Op = circuit.OR
+					flipped = true
+					break
+				}
+			}
+		}
+		if flipped {
+			bc.AssignLevels(utils.TargetGMW)
+			badCirc, badIn = bc, gen.Inputs(t, bc)
+			res.Reach["fail-then-carry-on"]++
+		}
+	}
 	// One case in four: the parties evaluate a second circuit on the same
 	// network objects afterwards (Run twice between Connect and Close): with the
 	// same input widths (new inputs) or with another generated circuit.
@@ -242,6 +265,13 @@ func (w *world) Run(t *rt.Tape, trace bool) *core.Result {
 					p.gotTriples = true
 				}
 				rt.Sleep(runDelay[p.id])
+				if badCirc != nil {
+					// fail, then carry on: a circuit that was not compiled for this protocol (it has an
+					// OR gate) is refused by every party; the network is then used for the real one
+					if _, berr := p.nw.Run(badIn[p.id], badCirc, false); berr != nil {
+						rt.Reach("fail-then-carry-on.unsupported-circuit-refused")
+					}
+				}
 				p.out, p.runErr = p.nw.Run(in[p.id], circ, false)
 				rt.Tracef("HARNESS party %d: Run returned %s err=%v", p.id, gen.FmtInts(p.out), p.runErr)
 				if circ2 != nil && p.runErr == nil {
